@@ -349,7 +349,12 @@ def minimise(world_cls, cfg: dict, trace: list, target: Violation, known, budget
     def test(cand):
         nonlocal runs
         runs += 1
-        r = execute(world_cls, 0, "replay", known, cfg=cfg, trace=cand)
+        try:
+            r = execute(world_cls, 0, "replay", known, cfg=cfg, trace=cand)
+        except Exception:
+            # a sub-trace can put a step into a state its generator never saw (shapes no longer
+            # match): such a candidate is simply not a valid reduction
+            return None
         if r.violation is not None and r.violation.signature == target.signature:
             return r
         return None
